@@ -727,6 +727,12 @@ const FAULTS: &[(&str, &[&str])] = &[
     ("extension-without-original", &[
         "extend type C17Ghost {\n  a: Int\n}\n",
         "extend enum C17GhostE {\n  V\n}\n"]),
+    // KNOWN FINDING (findings/C17.json): nitrogql accepts two definitions of one directive name; check_directives
+    // uses the first, so the verdict depends on which of the two comes first
+    ("duplicate-directive-definition", &[
+        "directive @c17dd(x: Int) on FIELD_DEFINITION\n",
+        "directive @c17dd(y: String) on OBJECT\n",
+        "type C17UsesDD {\n  f: Int @c17dd(x: 1)\n}\n"]),
     ("interface-field-missing-in-object", &[
         "interface C17I {\n  must: Int\n  also: String\n}\n",
         "type C17Impl implements C17I {\n  must: Int\n}\n",
@@ -875,6 +881,76 @@ fn main() {
             "f": fid, "iter_types": it0.iter().map(|x| json!([x.0, x.2])).collect::<Vec<_>>(), "after_map_str": it1.iter().map(|x| json!([x.0, x.1, x.2])).collect::<Vec<_>>(), "map_str_variants": variants.len()}));
     }
     dist.insert("map_str_calls_with_order_dependent_result(non-injective f)".into(), nonuniq_outcomes);
+
+    // ---- 1b. CPlugin: GraphQLScalarsPlugin::load_schema_extensions + schema_addition (two raw-iteration sites)
+    {
+        use nitrogql_plugin::{GraphQLScalarsPlugin, PluginSchemaExtensions, PluginV1Beta};
+        use serde_yaml::Value as Y;
+        let n_plugin = if thorough { 1500 } else { 200 };
+        let names = ["Date", "DateTime", "JSON", "BigInt", "URL", "Zed", "Abc", "abc", "A", "Money", "UUID", "Email", "Obj"];
+        let tsty = ["string", "number", "Date", "Date | string", "bigint", "Record<string, unknown>"];
+        let mut plugin_some = 0u64;
+        for _ in 0..n_plugin {
+            let n = rng.range(0, 8);
+            let mut picked: Vec<&str> = names.to_vec();
+            rng.shuffle(&mut picked);
+            picked.truncate(n);
+            // abstract description (for Coq) and the YAML values (for the plugin)
+            let mut abs: Vec<(String, Option<String>, Option<String>)> = vec![];   // name, xe_kind term, xe_codegen term
+            let mut real: Vec<(String, Vec<(String, Y)>)> = vec![];
+            for name in &picked {
+                let mut fields: Vec<(String, Y)> = vec![];
+                let kind_term = match rng.below(8) {
+                    0 => None,
+                    1 => { fields.push(("nitrogql:kind".into(), Y::Number(3.into()))); None }
+                    2 => { fields.push(("nitrogql:kind".into(), Y::String("object".into()))); Some("object".to_string()) }
+                    _ => { fields.push(("nitrogql:kind".into(), Y::String("scalar".into()))); Some("scalar".to_string()) }
+                };
+                let codegen_term = match rng.below(8) {
+                    0 => None,
+                    1 => { fields.push(("codegenScalarType".into(), Y::Sequence(vec![Y::String("x".into())]))); Some("YOther".to_string()) }
+                    2 | 3 => { let t = rng.pick(&tsty).to_string(); fields.push(("codegenScalarType".into(), Y::String(t.clone()))); Some(format!("(YStr {})", coq_str(&t))) }
+                    _ => {
+                        let keysets: [&[&str]; 6] = [&["send", "receive"], &["input", "output"], &["send", "output"],
+                            &["resolverInput", "resolverOutput", "operationInput", "operationOutput"],
+                            &["resolverInput", "resolverOutput", "operationInput"], &["send", "input", "receive", "resolverInput", "resolverOutput", "operationInput", "operationOutput"]];
+                        let ks = rng.pick(&keysets);
+                        let mut m = serde_yaml::Mapping::new();
+                        let mut terms = vec![];
+                        for k in ks.iter() {
+                            if rng.chance(1, 8) { m.insert(Y::String(k.to_string()), Y::Number(1.into())); terms.push(format!("({}, None)", coq_str(k))); }
+                            else { let t = rng.pick(&tsty).to_string(); m.insert(Y::String(k.to_string()), Y::String(t.clone())); terms.push(format!("({}, Some {})", coq_str(k), coq_str(&t))); }
+                        }
+                        fields.push(("codegenScalarType".into(), Y::Mapping(m)));
+                        Some(format!("(YMap [{}])", terms.join("; ")))
+                    }
+                };
+                if rng.chance(1, 3) { fields.push(("other".into(), Y::Bool(true))); }
+                abs.push((name.to_string(), kind_term, codegen_term));
+                real.push((name.to_string(), fields));
+            }
+            let mut outs: HashSet<Option<String>> = HashSet::new();
+            let mut last = None;
+            for _ in 0..4 {
+                // every run builds fresh HashMaps (fresh RandomState = another iteration order)
+                let mut te: HashMap<String, HashMap<String, Y>> = HashMap::new();
+                for (k, fs) in &real { te.insert(k.clone(), fs.iter().cloned().collect()); }
+                let mut plugin = GraphQLScalarsPlugin::default();
+                plugin.load_schema_extensions(PluginSchemaExtensions { type_extensions: &te });
+                let o = plugin.schema_addition();
+                outs.insert(o.clone());
+                last = Some(o);
+            }
+            let out = last.unwrap();
+            if out.is_some() { plugin_some += 1; }
+            let exts_term = coq_list(&abs, |(n, k, c)| format!("({}, mk_xext {} {})", coq_str(n), coq_opt(k, |x| coq_str(x)), coq_opt(c, |x| x.clone())));
+            let t = format!("CPlugin {} {} {}", exts_term, coq_opt(&out, |x| coq_str(x)), coq_n(outs.len() as u64));
+            if n >= 2 { distinct.insert(fnv(&t)); }
+            cases.push(t, json!({"kind":"plugin","type_extensions": real.iter().map(|(k, fs)| json!([k, fs.iter().map(|(a, b)| json!([a, serde_yaml::to_string(b).unwrap_or_default()])).collect::<Vec<_>>()])).collect::<Vec<_>>(),
+                "schema_addition": out, "distinct_outputs_over_4_runs": outs.len()}));
+        }
+        dist.insert("plugin_cases_with_some_addition".into(), plugin_some);
+    }
 
     // ---- 2. projects: CResolve, CSkeleton, CGen
     let n_proj = if thorough { 1200 } else { 120 };
